@@ -467,6 +467,13 @@ type loader struct {
 	r    *Runner
 	op   *Op
 	bulk bool
+	cnt  *int // loader invocations of this operation so far
+}
+
+func (l loader) phase() int {
+	p := *l.cnt
+	*l.cnt++
+	return p
 }
 
 func (r *Runner) loaderBody(rec *loadRec) {
@@ -488,11 +495,12 @@ func (r *Runner) loaderBody(rec *loadRec) {
 	}
 }
 
-// valFor: the value a loader produces for key k of op. op.V is the op's base id (a multiple of 32,
-// unique per op), keys are < 32, so values are unique per run; v % W is the weight class.
-func (r *Runner) valFor(op *Op, k int) int {
+// valFor: the value the phase-th loader invocation of op produces for key k. op.V is the op's base
+// id (a multiple of 32, unique per op), keys are < 16 and an operation invokes a loader at most
+// twice, so values are unique per run; v % W is the weight class.
+func (r *Runner) valFor(op *Op, k int, phase int) int {
 	W := r.Cfg.W()
-	return (op.V+k%32)*W + (op.V/32+k)%W
+	return (op.V+16*(phase%2)+k%16)*W + (op.V/32+k+phase)%W
 }
 
 func (l loader) single(k int, reload bool, old int) (int, error) {
@@ -501,6 +509,7 @@ func (l loader) single(k int, reload bool, old int) (int, error) {
 	if l.op.Load != nil {
 		plan = *l.op.Load
 	}
+	ph := l.phase()
 	rec := &loadRec{Keys: []int{k}, Reload: reload, Plan: plan}
 	if reload {
 		rec.Olds = []int{old}
@@ -511,7 +520,7 @@ func (l loader) single(k int, reload bool, old int) (int, error) {
 	switch plan.Kind {
 	case "err":
 		r.fault("loader-error")
-		v := r.valFor(l.op, k)
+		v := r.valFor(l.op, k, ph)
 		rec.Ret = map[int]int{k: v}
 		return v, errLoad
 	case "notfound":
@@ -522,7 +531,7 @@ func (l loader) single(k int, reload bool, old int) (int, error) {
 		rec.Exit = r.W.Tick()
 		panic(injectedPanic{l.op.V})
 	}
-	v := r.valFor(l.op, k)
+	v := r.valFor(l.op, k, ph)
 	rec.Ret = map[int]int{k: v}
 	return v, nil
 }
@@ -538,6 +547,7 @@ func (l loader) bulkDo(keys []int, reload bool, olds []int) (map[int]int, error)
 	if l.op.Load != nil {
 		plan = *l.op.Load
 	}
+	ph := l.phase()
 	ks := append([]int(nil), keys...)
 	rec := &loadRec{Keys: ks, Reload: reload, Bulk: true, Plan: plan, Olds: append([]int(nil), olds...)}
 	r.loaderBody(rec)
@@ -565,12 +575,16 @@ func (l loader) bulkDo(keys []int, reload bool, olds []int) (map[int]int, error)
 			r.fault("bulk-omitted-key")
 			continue
 		}
-		res[k] = r.valFor(l.op, k)
+		res[k] = r.valFor(l.op, k, ph)
+	}
+	req := map[int]bool{}
+	for _, k := range keys {
+		req[k] = true
 	}
 	for _, k := range plan.Extra {
-		if _, ok := res[k]; !ok {
+		if _, ok := res[k]; !ok && !req[k] {
 			r.fault("bulk-extra-key")
-			res[k] = r.valFor(l.op, k)
+			res[k] = r.valFor(l.op, k, ph)
 		}
 	}
 	rec.Ret = map[int]int{}
@@ -678,13 +692,13 @@ func (r *Runner) Exec(op *Op) (res Result) {
 	case "setrefreshable":
 		c.SetRefreshableAfter(op.K, time.Duration(op.D))
 	case "load":
-		v, err := c.Get(context.Background(), op.K, loader{r: r, op: op})
+		v, err := c.Get(context.Background(), op.K, loader{r: r, op: op, cnt: new(int)})
 		res.V, res.Err, res.Ok = v, errKind(err), err == nil
 	case "bulkget":
-		m, err := c.BulkGet(context.Background(), op.Ks, loader{r: r, op: op, bulk: true})
+		m, err := c.BulkGet(context.Background(), op.Ks, loader{r: r, op: op, bulk: true, cnt: new(int)})
 		res.Map, res.Err = m, errKind(err)
 	case "refresh":
-		ch := c.Refresh(context.Background(), op.K, loader{r: r, op: op})
+		ch := c.Refresh(context.Background(), op.K, loader{r: r, op: op, cnt: new(int)})
 		if ch == nil {
 			res.Nil = true
 		} else {
@@ -694,7 +708,7 @@ func (r *Runner) Exec(op *Op) (res Result) {
 			})
 		}
 	case "bulkrefresh":
-		ch := c.BulkRefresh(context.Background(), op.Ks, loader{r: r, op: op, bulk: true})
+		ch := c.BulkRefresh(context.Background(), op.Ks, loader{r: r, op: op, bulk: true, cnt: new(int)})
 		if ch == nil {
 			res.Nil = true
 		} else {
